@@ -52,6 +52,9 @@ SCALARS = {
     "union-consts": {"oneOf": [{"const": "asc"}, {"const": "desc"}, {"const": "natural"}]},
     "union-int-const": {"anyOf": [{"type": "integer"}, {"const": "x"}]},
     "union-const-model": {"oneOf": [{"const": "none"}, {"$ref": "#/components/schemas/Leaf"}]},
+    # an enumeration next to its own plain value type: the encoder must tell the member from the plain value
+    "union-strenum-str": {"anyOf": [{"$ref": "#/components/schemas/Flavor"}, {"type": "string"}]},
+    "union-intenum-int": {"anyOf": [{"$ref": "#/components/schemas/Level"}, {"type": "integer"}]},
 }
 DEFAULTS = {"str": "dflt", "int": 7, "num": 1.5, "bool": True, "strenum": "a", "const": "fixed", "date": "2020-01-02"}
 
